@@ -22,6 +22,13 @@
   http_response_read() outcomes.  Maps are total functions (`Nat → …`) so that
   the frame conditions of the proofs are `if i = j then … else …`.
 
+  Pointers become indices (host index in the extension, proc index in host->first
+  order, request slot).  Three places therefore carry a guard that has no C
+  counterpart, because a dangling index has none: hostAssign / procAcquire / openFd
+  do nothing for a slot without a context, slotConnectError ignores a proc index
+  ≥ nprocs, the round-robin wrap scan stays inside the host array.  None of them
+  is reachable from `initWorld` (the correspondence would show a crash of the C).
+
   Not modelled (documented in the check): local process death / respawn
   (waitpid, fork) and adaptive spawning — procs are RUNNING or OVERLOADED;
   FastCGI authorizer mode; request bodies.
@@ -395,7 +402,9 @@ def recvResponse (w : World) (s : Nat) : Rc × World :=
   let r := popRd w
   if r.1 = 'g' then (.goOn, r.2)
   else if r.1 = 'd' then
-    (.goOn, r.2.updAux s fun a => { a with started := true, readTs := r.2.now })
+    -- response headers complete: the backend's status line replaces whatever was there
+    (.goOn, r.2.updAux s fun a =>
+      { a with started := true, status := if a.started then a.status else 200, readTs := r.2.now })
   else if r.1 = 'x' then recvResponseError r.2 s
   else (.finished, connectionClose r.2 s)
 
